@@ -600,8 +600,11 @@ func (o *operation) handle() {
 		// drain any contents of body so downstream handler sees empty
 		verifPoint("req:skipbody")
 		o.drainBody(o.request.Body)
-	case sameRequestCompression && sameRequestCodec && !mustDecodeRequest:
+	case sameRequestCompression && sameRequestCodec && !mustDecodeRequest &&
+		(o.clientEnveloper == nil || o.serverEnveloper != nil || o.client.reqCompression == nil):
 		// we do not need to decompress or decode; just transforming envelopes
+		// (not possible when a per-message compressed flag must be turned into a
+		// whole-body Content-Encoding: uncompressed messages must be compressed)
 		verifPoint("req:enveloping")
 		o.request.Body = &envelopingReader{rw: rw, r: o.request.Body}
 	default:
@@ -1190,8 +1193,11 @@ func (w *responseWriter) WriteHeader(statusCode int) {
 	}
 
 	// Now we can define the transformed response body.
-	if sameResponseCodec && !mustDecodeResponse {
+	if sameResponseCodec && !mustDecodeResponse &&
+		(w.op.serverEnveloper == nil || w.op.clientEnveloper != nil || w.op.client.respCompression == nil) {
 		// we do not need to decompress or decode
+		// (not possible when a per-message compressed flag must be turned into a
+		// whole-body Content-Encoding: uncompressed messages must be compressed)
 		verifPoint("resp:enveloping")
 		w.w = &envelopingWriter{rw: w, w: delegate}
 	} else {
@@ -1981,8 +1987,9 @@ func (m *message) advanceToStage(op *operation, newStage messageStage) error {
 	}
 
 	// Fast path: stageRead only, buffer still in original encoding.
+	mustCompress := m.mustCompress(op)
 	if m.stage == stageRead && newStage == stageSend && m.sameCodec &&
-		(!m.wasCompressed || m.sameCompression) {
+		(!m.wasCompressed || m.sameCompression) && !mustCompress {
 		m.stage = newStage
 		return nil
 	}
@@ -1995,8 +2002,10 @@ func (m *message) advanceToStage(op *operation, newStage messageStage) error {
 			}
 			return m.advanceToStage(op, newStage)
 		}
-		if err := m.decompress(op); err != nil {
-			return err
+		if m.wasCompressed {
+			if err := m.decompress(op); err != nil {
+				return err
+			}
 		}
 		if err := m.compress(op); err != nil {
 			return err
@@ -2018,7 +2027,7 @@ func (m *message) advanceToStage(op *operation, newStage messageStage) error {
 				return err
 			}
 		}
-		if m.wasCompressed {
+		if m.wasCompressed || mustCompress {
 			if err := m.compress(op); err != nil {
 				return err
 			}
@@ -2030,6 +2039,19 @@ func (m *message) advanceToStage(op *operation, newStage messageStage) error {
 	}
 	m.stage = newStage
 	return nil
+}
+
+// mustCompress returns true if the message arrived uncompressed (its envelope's
+// compressed flag was unset) but is bound for a protocol without envelopes whose
+// headers already declare compression for the whole body.
+func (m *message) mustCompress(op *operation) bool {
+	if m.wasCompressed {
+		return false
+	}
+	if m.isRequest {
+		return op.clientEnveloper != nil && op.serverEnveloper == nil && op.server.reqCompression != nil
+	}
+	return op.serverEnveloper != nil && op.clientEnveloper == nil && op.client.respCompression != nil
 }
 
 // decompress decompresses the data in m.buf in place, swapping
